@@ -894,8 +894,9 @@ from . import speclang
 # condition is checked on the code the real compiler emits for a family of functions that put a struct / array value at
 # each kind of transfer point; pointer-typed operands (negative controls) must NOT be required to be copies.
 class VCase:
-    def __init__(self, name, gosrc, sinks=(), locals_=(), note='', check=None, ctor_args=None, methods=()):
+    def __init__(self, name, gosrc, sinks=(), locals_=(), note='', check=None, ctor_args=None, methods=(), box=False):
         self.name, self.gosrc, self.sinks, self.locals, self.note = name, gosrc, tuple(sinks), tuple(locals_), note
+        self.box = box            # the function returns its value-typed operand boxed into an interface
         self.ctor_args, self.methods = ctor_args, tuple(methods)   # (constructor name, value-typed argument indexes); value-receiver methods
         self.check = check        # (JavaScript expression over the compiled package P, value Go's semantics gives): the replay
 
@@ -934,6 +935,14 @@ def c07_cases():
     C.append(VCase('V_StructLitPos', 'func V_StructLitPos(a S, b A) W { return W{a, b} }', ctor_args=('W', (0, 1)),
                    check=('(function(){ var a = new P.S.ptr(1, 2); var w = P.V_StructLitPos(a, [1, 2, 3]); a.x = 9; return w.s.x; })()', '1')))
     C.append(VCase('V_ValueRecv', 'func V_ValueRecv(a S) int { a.Mut(); return a.x }', methods=('Mut',), check=('P.V_ValueRecv(new P.S.ptr(1, 2))', '1')))
+    # boxing into an interface: the interface value holds a copy
+    C.append(VCase('V_Box', 'func V_Box(a S) interface{} { return a }', box=True,
+                   check=('(function(){ var a = new P.S.ptr(1, 2); var r = P.V_Box(a); a.x = 9; return r.$val.x; })()', '1')))
+    C.append(VCase('V_BoxArr', 'func V_BoxArr(a A) interface{} { return a }', box=True,
+                   check=('(function(){ var a = [1, 2, 3]; var r = P.V_BoxArr(a); a[0] = 9; return r.$val[0]; })()', '1')))
+    # range over an array value with a value variable: the range expression is evaluated once, i.e. the loop runs over a copy
+    C.append(VCase('V_RangeArr', 'func V_RangeArr(a A) int { t := 0; for _, v := range a { a[2] = 100; t += v }; return t }', locals_=('_ref',),
+                   check=('P.V_RangeArr([1, 2, 3])', '6')))
     # negative control: pointers are passed as they are
     C.append(VCase('V_PtrPass', 'func V_PtrPass(p *S) int { psink(p); return p.x }', sinks=(), note='control'))
     return C
@@ -1009,6 +1018,8 @@ def c07_transfer_points(fn, case):
         if t == 'CallExpression' and n['callee'].get('type') == 'MemberExpression' and not n['callee'].get('computed') \
            and n['callee']['property'].get('name') in case.methods:
             out.append(('receiver of the value method %s' % n['callee']['property']['name'], n['callee']['object']))
+        if case.box and t == 'ReturnStatement' and n.get('argument') and n['argument'].get('type') == 'NewExpression' and n['argument']['arguments']:
+            out.append(('value boxed into an interface', n['argument']['arguments'][0]))
         if t == 'AssignmentExpression' and n['operator'] == '=' and n['left'].get('type') == 'Identifier' and n['left']['name'] in case.locals:
             out.append(('initial value of %s' % n['left']['name'], n['right']))
         if t == 'VariableDeclarator' and n.get('init') and n['id'].get('type') == 'Identifier' and n['id']['name'] in case.locals:
